@@ -49,10 +49,10 @@ theorem copies_are_whole_batches (cfg : Cfg) (s s' : State) (pw : Nat) (tp : TP)
   obtain ⟨-, -, -, hm⟩ := hg
   cases hs
   refine ⟨b, B, hB, hm, ?_, ?_, ?_⟩
-  · cases h : out.applied <;> simp [produced, h]
+  · rw [produced_log]; cases h : out.applied <;> simp
   · simp [mkEntries, ← hm]
   · intro t ht
-    cases h : out.applied <;> simp [produced, h, upd_other _ _ _ _ ht]
+    rw [produced_log]; cases h : out.applied <;> simp [upd_other _ _ _ _ ht]
 
 /-- **sender_takes_head** (FIFO) — the partition writer's goroutine only ever takes the head of its queue, and only
 when it is idle, i.e. after the previous batch — with all its attempts — has completed. -/
